@@ -17,7 +17,8 @@ void run_history(Run &R, int maxops) {
   Sim s(c); World w(s);
   s.nodeid = (uint8_t)(1 + c.t.below(127));
   w.mandatory();
-  int ng = 1 + (int)c.t.below(4);
+  // layout: sub-index 1 ('all') plus 1..4 groups behind the sub-indices 2.. - or, solo, a device with sub-index 1 only, which then addresses its one group
+  bool solo = c.t.chance(24); int ng = solo ? 0 : 1 + (int)c.t.below(4); const int first = solo ? 0 : 1;
   std::vector<Grp> g(ng + 1);           // g[0] = the "all" entry (sub-index 1) with a 1-byte area of its own
   uint32_t off = c.t.below(8);
   SplitMix iv(c.t.u16());
@@ -26,7 +27,9 @@ void run_history(Run &R, int maxops) {
     g[i].ram = s.alloc(g[i].size, "para-ram"); g[i].def = s.alloc(g[i].size, "para-default", false);
     for (int k = 0; k < g[i].size; k++) { g[i].ram[k] = (uint8_t)iv.next(); g[i].def[k] = (uint8_t)(0xD0 + i); }
   }
-  g[0].size = 1; g[0].en = true; g[0].flags = CO_PARA___E; g[0].type = CO_RESET_NODE; g[0].off = off; g[0].ram = s.alloc(1, "para-all"); g[0].def = nullptr; off += 1;
+  if (!solo) { g[0].size = 1; g[0].en = true; g[0].flags = CO_PARA___E; g[0].type = CO_RESET_NODE; g[0].off = off; g[0].ram = s.alloc(1, "para-all"); g[0].def = nullptr; off += 1; }
+  else { static const uint32_t FV[4] = {CO_PARA____, CO_PARA___E, CO_PARA__AE, CO_PARA__A_}; g[0].size = 1 + (int)c.t.below(16); g[0].flags = FV[c.t.below(4)]; g[0].en = (g[0].flags & CO_PARA___E) != 0; g[0].type = 1 + (int)c.t.below(2); g[0].off = off;
+    g[0].ram = s.alloc(g[0].size, "para-ram"); g[0].def = s.alloc(g[0].size, "para-default", false); for (int k = 0; k < g[0].size; k++) { g[0].ram[k] = (uint8_t)iv.next(); g[0].def[k] = 0xD0; } off += g[0].size; }
   for (int i = 0; i <= ng; i++) {
     CO_PARA *p = (CO_PARA *)s.alloc(sizeof(CO_PARA), "para-ctl", false);
     p->Offset = g[i].off; p->Size = g[i].size; p->Start = g[i].ram; p->Default = g[i].def; p->Type = (CO_NMT_RESET)g[i].type; p->Ident = 0; p->Value = g[i].flags; g[i].pg = p;
@@ -48,7 +51,7 @@ void run_history(Run &R, int maxops) {
   arm(); w.finish(); bool hit = done();
   SdoClient cl(s, w.req[0], w.rsp[0]);
   if (hit) { CHECK(c, s.init_err != CO_ERR_NONE, "short-read-surfaced", "a short NVM read during initialisation was not reported as node error"); }
-  else { CHECK(c, s.init_err == CO_ERR_NONE, "harness", "initialisation reported error %d", s.init_err); for (int i = 1; i <= ng; i++) CHECK(c, ram_equals_nvm(i), "restart-reloads-last-image", "after initialisation group %d differs from its NVM image", i); }
+  else { CHECK(c, s.init_err == CO_ERR_NONE, "harness", "initialisation reported error %d", s.init_err); for (int i = first; i <= ng; i++) CHECK(c, ram_equals_nvm(i), "restart-reloads-last-image", "after initialisation group %d differs from its NVM image", i); }
   CONodeGetErr(s.node);
   bool stored = false;
   int nops = 1 + (int)c.t.below(maxops);
@@ -57,7 +60,7 @@ void run_history(Run &R, int maxops) {
     static const uint16_t W[6] = {16, 34, 18, 14, 12, 6};
     uint32_t op = c.t.weighted(W);
     if (op == 0) {        // the application modifies parameters in RAM
-      int i = 1 + (int)c.t.below(ng); SplitMix r(c.t.u16()); for (int k = 0; k < g[i].size; k++) g[i].ram[k] = (uint8_t)r.next(); VLOG(c, "modify RAM of group %d", i);
+      int i = first + (int)c.t.below((uint32_t)(ng + 1 - first)); SplitMix r(c.t.u16()); for (int k = 0; k < g[i].size; k++) g[i].ram[k] = (uint8_t)r.next(); VLOG(c, "modify RAM of group %d", i);
     } else if (op == 1) { // store request
       int sub = 1 + (int)c.t.below(ng + 1); bool good = c.t.below(4) != 0; uint32_t sig = good ? 0x65766173u : (c.t.coin() ? 0x64616F6Cu : c.t.u32()); if (!good && sig == 0x65766173u) sig ^= 1;
       std::vector<uint8_t> rb = s.snapshot(), nb = s.nvm;
@@ -66,8 +69,7 @@ void run_history(Run &R, int maxops) {
       CHECK(c, rb == s.snapshot(), "store-leaves-ram", "a store request changed RAM: %s", s.diff_snapshot(rb, s.snapshot()).c_str());
       if (!good) { CHECK(c, code != 0, "wrong-signature-refused", "the value %08X written to 1010h:%d was accepted", sig, sub); CHECK(c, nb == s.nvm, "wrong-signature-touches-nothing", "a refused store request changed the NVM"); }
       else {
-        for (int i = 1; i <= ng; i++) if ((sub == 1 || sub == i + 1) && g[i].en) memcpy(mnv.data() + g[i].off, g[i].ram, g[i].size);
-        if (sub == 1 && ng + 1 <= 1) memcpy(mnv.data() + g[0].off, g[0].ram, 1);
+        for (int i = first; i <= ng; i++) if ((sub == 1 || sub == i + 1) && g[i].en) memcpy(mnv.data() + g[i].off, g[i].ram, g[i].size);
         if (h) { CHECK(c, code != 0, "short-write-surfaced", "a short NVM write during 'save' to 1010h:%d was confirmed to the client", sub); mnv = s.nvm; /* contents of the fault step are unconstrained */ }
         else { CHECK(c, code == 0, "store-accepted", "'save' written to 1010h:%d refused with %08X", sub, code);
           for (size_t k = 0; k < mnv.size(); k++) CHECK(c, mnv[k] == s.nvm[k], "store-exact", "after 'save' to 1010h:%d NVM byte %zu is %02X, expected %02X (exactly the bytes of the addressed, enabled groups)", sub, k, s.nvm[k], mnv[k]);
@@ -81,25 +83,25 @@ void run_history(Run &R, int maxops) {
       CHECK(c, nb == s.nvm, "restore-leaves-nvm", "a restore request changed the NVM");
       if (!good) { CHECK(c, code != 0, "wrong-signature-refused", "the value %08X written to 1011h:%d was accepted", sig, sub); CHECK(c, rb == s.snapshot(), "wrong-signature-touches-nothing", "a refused restore request changed RAM"); for (int i = 0; i <= ng; i++) CHECK(c, defcalls[i] == 0, "wrong-signature-touches-nothing", "default callback invoked for a refused restore request"); }
       else { CHECK(c, code == 0, "restore-accepted", "'load' written to 1011h:%d refused with %08X", sub, code);
-        for (int i = 1; i <= ng; i++) { int sel = ((sub == 1 || sub == i + 1) && g[i].en) ? 1 : 0; CHECK(c, defcalls[i] == sel, "restore-exact-groups", "'load' to 1011h:%d: default callback invoked %d time(s) for group %d, expected %d", sub, defcalls[i], i, sel); } }
+        for (int i = first; i <= ng; i++) { int sel = ((sub == 1 || sub == i + 1) && g[i].en) ? 1 : 0; CHECK(c, defcalls[i] == sel, "restore-exact-groups", "'load' to 1011h:%d: default callback invoked %d time(s) for group %d, expected %d", sub, defcalls[i], i, sel); } }
     } else if (op == 3) { // restart between two completed requests: RAM is lost, NVM survives
-      for (int i = 1; i <= ng; i++) for (int k = 0; k < g[i].size; k++) g[i].ram[k] = (uint8_t)iv.next();
+      for (int i = first; i <= ng; i++) for (int k = 0; k < g[i].size; k++) g[i].ram[k] = (uint8_t)iv.next();
       arm(); s.init(); s.start(); bool h = done(); s.clear_tx();
       VLOG(c, "restart%s", h ? "   (NVM fault injected)" : "");
       if (h) CHECK(c, s.init_err != CO_ERR_NONE, "short-read-surfaced", "a short NVM read during the restart was not reported as node error");
       else { CHECK(c, s.init_err == CO_ERR_NONE, "no-spurious-node-error", "a restart without NVM fault reported node error %d", s.init_err);
-        for (int i = 1; i <= ng; i++) CHECK(c, ram_equals_nvm(i), "restart-reloads-last-image", "after a restart group %d does not equal the last successfully stored image", i); if (stored) R.stored_then_restart = true; }
+        for (int i = first; i <= ng; i++) CHECK(c, ram_equals_nvm(i), "restart-reloads-last-image", "after a restart group %d does not equal the last successfully stored image", i); if (stored) R.stored_then_restart = true; }
       CONodeGetErr(s.node);
     } else if (op == 4) { // NMT reset node / communication: reloads the groups of that reset type
       bool node_reset = c.t.coin();
-      for (int i = 1; i <= ng; i++) for (int k = 0; k < g[i].size; k++) g[i].ram[k] = (uint8_t)iv.next();
+      for (int i = first; i <= ng; i++) for (int k = 0; k < g[i].size; k++) g[i].ram[k] = (uint8_t)iv.next();
       std::vector<std::vector<uint8_t>> rb; for (int i = 0; i <= ng; i++) rb.push_back(std::vector<uint8_t>(g[i].ram, g[i].ram + g[i].size));
       CONodeGetErr(s.node);
       arm(); s.rx(Frame::mk(0, 2, {(uint8_t)(node_reset ? 129 : 130), 0})); bool h = done(); s.clear_tx();
       VLOG(c, "NMT reset %s%s", node_reset ? "node" : "communication", h ? "   (NVM fault injected)" : "");
       if (h) CHECK(c, CONodeGetErr(s.node) != CO_ERR_NONE, "short-read-surfaced", "a short NVM read during an NMT reset was not reported as node error");
       else { CO_ERR ne = CONodeGetErr(s.node); CHECK(c, ne == CO_ERR_NONE, "no-spurious-node-error", "an NMT reset %s without NVM fault reported node error %d", node_reset ? "node" : "communication", ne); }
-      if (!h) for (int i = 1; i <= ng; i++) {
+      if (!h) for (int i = first; i <= ng; i++) {
         bool reload = node_reset || g[i].type == CO_RESET_COM;
         if (reload) CHECK(c, ram_equals_nvm(i), "reset-reloads-type", "NMT reset %s did not reload group %d (reset type %d) from NVM", node_reset ? "node" : "communication", i, g[i].type);
         else CHECK(c, !memcmp(g[i].ram, rb[i].data(), g[i].size), "reset-reloads-type", "NMT reset communication reloaded group %d of reset type 'node'", i);
@@ -134,7 +136,7 @@ void case_faultenum(Ctx &c) {
 
 Registrar reg(Prop{
     "C17",
-    "Cases: 1..4 parameter groups (size 1..64, non-overlapping NVM offsets with gaps, reset type node/communication, enable flags from {disabled, on command, autonomously, both}: store-on-command is bit 0) behind 1010h/1011h sub-indices 2..n+1 plus the 'all' sub-index 1, random RAM and NVM images; histories of RAM modifications, SDO writes to 1010h/1011h with right and wrong signatures, restarts (RAM lost, NVM kept), NMT reset node/communication and reads. "
+    "Cases: 1..4 parameter groups - or a device with sub-index 1 only, which then addresses its single group - (size 1..64, non-overlapping NVM offsets with gaps, reset type node/communication, enable flags from {disabled, on command, autonomously, both}: store-on-command is bit 0) behind 1010h/1011h sub-indices 2..n+1 plus the 'all' sub-index 1, random RAM and NVM images; histories of RAM modifications, SDO writes to 1010h/1011h with right and wrong signatures, restarts (RAM lost, NVM kept), NMT reset node/communication and reads. "
     "Mode fault-enum: each generated history of <= 12 (24) ops is first run without fault to count its NVM driver calls N and is then re-run once for EVERY fault position k = 1..N (k-th NVM call returns a short count); mode random: longer histories with a random fault position. "
     "Oracle: reference model of RAM, NVM, verdicts and node error (set after a step with a short count, none after a fault-free restart or reset): 'save' writes exactly the addressed enabled groups (byte-exact NVM compare), 'load' calls COParaDefault for exactly those, other values refused with RAM and NVM byte-identical, after restart/reset the groups of the right type equal the last successfully stored image, a short count yields an SDO abort (store) or a node error (load); in the fault step itself only the error signal is required. "
     "Non-trivial: a successful store followed by a restart/reset, or a fault position that was hit. evaluations counts generated histories; every fault-enum history additionally executes N faulted replays (class fault-position-executed). Distinct = distinct decoded choice sequence.",
